@@ -397,3 +397,131 @@ REG.add(Contract(f"{PP}.parse", module=M_DP, kind="method", view="string", param
                  locals=dict(content="Str", relevant_content="Str", modules="Set[PumlModule]", dependencies="Dict[Str,Set[Str]]"),
                  note="pure: within one interpreter run the result is a function of the file (with two declarations of ONE alias for different names the choice depends on the hash seed: reported)",
                  properties=["C06", "C13", "C07"]))
+
+# ---------------------------------------------------------------- C06: per-line language facts about the regexes the parser builds (regex as data)
+# On every run the REAL functions are executed once on the empty text with re.compile intercepted (child interpreter, PYTHONPATH = the source under
+# verification): that yields the regex texts and flags the current source builds. They are parsed with CPython's own re._parser and the fragment they use
+# (literals, \w \d \s, '.', groups, ?, +, *, |, ^ $) is translated to SMT-LIB RegLan. Two translations: LO (an under-approximation: \w \d \s restricted to
+# ASCII) for 'this line IS matched' claims, HI (an over-approximation: the non-ASCII characters are allowed in every class) for 'every match of the whole
+# line binds the groups to ...' claims. ^ and $ are the empty word: the lemmas are about ONE line without a newline matched as a whole.
+# NOT covered (bounded stand-in only): which of several possible matches re.finditer picks in a multi-line text (leftmost, greedy, the unanchored second
+# alternative, \s+ running across newlines).
+_PUML_RE = {}
+
+
+def _puml_regexes():
+    if not _PUML_RE:
+        import subprocess, sys, json, os
+        src = os.environ.get("PYVC_REPO_SRC", "/repo/src")
+        script = ("import re, json\n"
+                  "from pytestarch.diagram_extension import diagram_parser as dp\n"
+                  "pats = []\n"
+                  "orig = re.compile\n"
+                  "def cap(p, flags=0):\n"
+                  "    pats.append((p, int(flags)))\n"
+                  "    return orig(p, flags)\n"
+                  "dp.re.compile = cap\n"
+                  "dp.PumlParser._retrieve_modules_declared_outside_dependencies('')\n"
+                  "dp.PumlParser._retrieve_dependencies_and_inline_modules('')\n"
+                  "print(json.dumps(pats))\n")
+        env = dict(os.environ, PYTHONPATH=src)
+        out = subprocess.run([sys.executable, "-c", script], env=env, capture_output=True, text=True, timeout=60)
+        pats = json.loads(out.stdout.strip().splitlines()[-1])
+        _PUML_RE["module"], _PUML_RE["dependency"] = pats[0], pats[1]
+    return _PUML_RE
+
+
+_RS = z3.ReSort(S)
+
+
+def _rng(a, b):
+    return z3.Range(z3.StringVal(a), z3.StringVal(b))
+
+
+def _cls(cat, hi):
+    """character class of a CATEGORY_*; hi=True: over-approximation (every non-ASCII character allowed), else ASCII only"""
+    name = str(cat)
+    if name.endswith("WORD"):
+        lo = z3.Union(_rng("a", "z"), _rng("A", "Z"), _rng("0", "9"), z3.Re(z3.StringVal("_")))
+    elif name.endswith("DIGIT"):
+        lo = _rng("0", "9")
+    elif name.endswith("SPACE"):
+        lo = z3.Union(*[z3.Re(z3.StringVal(c)) for c in " \t\n\r\f\v"])
+    else:
+        raise ValueError(f"regex category {name} outside the translated fragment")
+    return z3.Union(lo, _rng("\x80", "\U0002ffff")) if hi else lo
+
+
+def _re2smt(tree, hi):
+    import re._constants as sc
+    parts = []
+    for op, av in tree:
+        if op is sc.LITERAL:
+            parts.append(z3.Re(z3.StringVal(chr(av))))
+        elif op is sc.ANY:
+            parts.append(z3.Union(_rng("\x00", "\t"), _rng("\x0b", "\U0002ffff")))   # '.' without DOTALL: anything but newline
+        elif op is sc.IN:
+            alts = []
+            for o2, a2 in av:
+                if o2 is sc.LITERAL:
+                    alts.append(z3.Re(z3.StringVal(chr(a2))))
+                elif o2 is sc.CATEGORY:
+                    alts.append(_cls(a2, hi))
+                else:
+                    raise ValueError(f"regex set item {o2} outside the translated fragment")
+            parts.append(alts[0] if len(alts) == 1 else z3.Union(*alts))
+        elif op is sc.MAX_REPEAT:
+            lo_, hi_, body = av
+            b = _re2smt(body, hi)
+            if (lo_, hi_) == (0, 1):
+                parts.append(z3.Option(b))
+            elif lo_ == 1 and hi_ == sc.MAXREPEAT:
+                parts.append(z3.Plus(b))
+            elif lo_ == 0 and hi_ == sc.MAXREPEAT:
+                parts.append(z3.Star(b))
+            else:
+                raise ValueError("regex repeat bounds outside the translated fragment")
+        elif op is sc.SUBPATTERN:
+            parts.append(_re2smt(av[3], hi))
+        elif op is sc.BRANCH:
+            parts.append(z3.Union(*[_re2smt(b, hi) for b in av[1]]))
+        elif op is sc.AT:
+            parts.append(z3.Re(z3.StringVal("")))
+        else:
+            raise ValueError(f"regex construct {op} outside the translated fragment")
+    if not parts:
+        return z3.Re(z3.StringVal(""))
+    return parts[0] if len(parts) == 1 else z3.Concat(*parts)
+
+
+def _puml_lang(which, hi=False):
+    import re._parser as sp
+    pat, flags = _puml_regexes()[which]
+    if flags != 8:
+        raise ValueError("the parser's line regexes are expected to be compiled with re.MULTILINE only")
+    return _re2smt(sp.parse(pat, flags), hi)
+
+
+REG.specfuns["puml_dep_line"] = lambda eng, st, line: vbool(z3.InRe(line.x, _puml_lang("dependency")))
+REG.specfuns["puml_decl_line"] = lambda eng, st, line: vbool(z3.InRe(line.x, _puml_lang("module")))
+# component names of the property: non-empty words over letters, digits, '_' and '.' (single identifiers or dotted module names); arrow texts: \w+; aliases: identifiers
+_NAME = z3.Plus(z3.Union(_rng("a", "z"), _rng("A", "Z"), _rng("0", "9"), z3.Re(z3.StringVal("_")), z3.Re(z3.StringVal("."))))
+_WORD = z3.Plus(z3.Union(_rng("a", "z"), _rng("A", "Z"), _rng("0", "9"), z3.Re(z3.StringVal("_"))))
+REG.specfuns["puml_name"] = lambda eng, st, x: vbool(z3.InRe(x.x, _NAME))
+REG.specfuns["puml_word"] = lambda eng, st, x: vbool(z3.InRe(x.x, _WORD))
+_DEP_FORMS = {
+    "bracketed_long_right": "'[' + a + '] --> [' + b + ']'", "bracketed_short_right": "'[' + a + '] -> [' + b + ']'", "bare_right": "a + ' --> ' + b",
+    "text_right": "'[' + a + '] -' + t + '-> [' + b + ']'", "mixed_right": "a + ' -> [' + b + ']'",
+    "bracketed_long_left": "'[' + b + '] <-- [' + a + ']'", "bracketed_short_left": "'[' + b + '] <- [' + a + ']'", "bare_left": "b + ' <-- ' + a",
+    "text_left": "'[' + b + '] <-' + t + '- [' + a + ']'", "mixed_left": "'[' + b + '] <- ' + a"}
+for _nm, _line in _DEP_FORMS.items():
+    REG.lemma(f"puml_dependency_regex_accepts_{_nm}", params=dict(a="Str", b="Str", t="Str"), requires=["puml_name(a)", "puml_name(b)", "puml_word(t)"],
+              ensures=[f"puml_dep_line({_line})"], view="string", properties=["C06"],
+              note="the dependency-line regex built by the current source matches this documented arrow form as a whole line, for ALL component names over the stated alphabet")
+_DECL_FORMS = {
+    "component_name": "'component ' + a", "brackets": "'[' + a + ']'", "component_brackets": "'component [' + a + ']'",
+    "component_name_as": "'component ' + a + ' as ' + t", "brackets_as": "'[' + a + '] as ' + t", "component_brackets_as": "'component [' + a + '] as ' + t"}
+for _nm, _line in _DECL_FORMS.items():
+    REG.lemma(f"puml_declaration_regex_accepts_{_nm}", params=dict(a="Str", t="Str"), requires=["puml_name(a)", "puml_word(t)"],
+              ensures=[f"puml_decl_line({_line})"], view="string", properties=["C06"],
+              note="the component-declaration regex built by the current source matches this documented declaration form as a whole line")
